@@ -249,6 +249,17 @@ def Multi.fuel (M : Multi) (bufs : List Nat) : Nat := M.size + bufs.length + 1
 def Multi.consume (M : Multi) (bufs : List Nat) (dflt : Nat) : Multi × Bytes × Err :=
   drain Multi.read (M.fuel bufs) M bufs dflt
 
+/-- Any way of using a multi reader before `Close`: reads with any buffer sizes and `WriteTo`s
+into any writers, interleaved. -/
+inductive MultiOp where
+  | read (m : Nat)
+  | writeTo (w : Wr)
+
+def Multi.run (v : Version) : Multi → List MultiOp → Multi
+  | M, [] => M
+  | M, .read m :: ops => Multi.run v (M.read m).1 ops
+  | M, .writeTo w :: ops => Multi.run v (M.writeTo v w).1 ops
+
 /-- Close counts of all sources, in the original order. -/
 def Multi.closeCounts (M : Multi) : List Nat := (M.done ++ M.readers).map (·.closes)
 
